@@ -32,8 +32,8 @@ for d in sorted(glob.glob(os.path.join(V, "seeded", "*"))):
     if len(what) > 420:
         what = what[:417] + "..."
     out.append("| %s | %s | %s | %s | %s |" % (os.path.basename(d), m.get("property"), what,
-               ("`./check %s`: " % m.get("property") + ", ".join(keys)) if m.get("detected") else "**not detected**",
-               m.get("history", "").replace("|", "/")))
+               ("`./check %s`: " % m.get("property") + ", ".join(keys)) if m.get("detected") else ("(retired)" if m.get("retired") else "**not detected**"),
+               (m.get("history", "") + (" RETIRED: " + m["retired"] if m.get("retired") else "")).replace("|", "/")))
 out.append("\n### 10.4b Behaviour-preserving refactorings (false-alarm test; written by fresh helper processes that saw only the property text)\n")
 out.append("Each refactoring passes the unedited suite and was compared by its author with the original on thousands of random and odd inputs "
            "(differential script, no difference). `tools/benign_test.sh` applies it to a scratch worktree and runs the check: the expected outcome is "
